@@ -87,6 +87,11 @@ AMBIENT = [
     {"LANG": "zh_CN.UTF-8", "LC_CTYPE": "zh_CN.UTF-8", "TERM": "dumb", "NO_COLOR": "1"},
     {"LC_ALL": "POSIX", "CLICOLOR_FORCE": "1", "RUST_LOG": "trace", "HOME": "/nonexistent"},
     {"LANG": "de_DE.ISO-8859-1", "LC_NUMERIC": "de_DE", "USER": "root", "SHELL": "/bin/sh", "COLUMNS": "300"},
+    # variables named after options that have no environment form: they must be ignored
+    {"ALLOW_MISSING_RELAY_PROTECTION": "true", "SIGNATURE_ONLY": "true", "MESSAGE_HASH": "true", "LENGTH": "15", "LANGUAGE": "english",
+     "VANITY_THREADS": "1", "VANITY_PASSWORD": "decoy", "VANITY_ACCOUNT_INDEX": "3", "THREADS": "1", "INDEX": "5", "PATH_": "x"},
+    {"ALLOW_MISSING_RELAY_PROTECTION": "1", "HDWALLET_MNEMONIC": "abandon", "HDWALLET_PASSWORD": "x", "HDWALLET_ACCOUNT_INDEX": "9", "SIGNATURE": "0x00",
+     "VANITY_HD_PATH": "m/0", "VANITY_PREFIX": "0xff", "MNEMONIC_FILE": "/dev/null", "DATA": "-", "MESSAGE": "-", "TRANSACTION": "-"},
 ]
 
 
